@@ -134,6 +134,7 @@ func (f *Frame) siteCall(instr ssa.Instruction, c *ssa.CallCommon) {
 			}
 		}
 		for j, a := range c.Args {
+			env.vars[fmt.Sprintf("a_%d", j)] = f.val(a) // positional name (builtins have no parameter names)
 			if j < len(names) && names[j] != "" && names[j] != "_" {
 				env.vars["a_"+names[j]] = f.val(a)
 			}
